@@ -167,14 +167,27 @@ def unguarded_io_advances(fn, noreturn=("libast_fatal_error",)):
             return state
         st = set(state)
         for f in X.implied(cond, truth):
-            if f[0] == "cmp":
-                op, a, b = f[1], f[2], f[3]
-                # n > 0, n >= 1, 0 < n
-                for d in iovars:
-                    p = "d%d" % d
+            for d in iovars:
+                p = "d%d" % d
+                if f[0] == "cmp":
+                    op, a, b = f[1], f[2], f[3]
+                    # n > 0, n >= 1, 0 < n
                     if (a == p and ((op == ">" and b in ("0",)) or (op == ">=" and b in ("1",)))) or \
                        (b == p and ((op == "<" and a in ("0",)) or (op == "<=" and a in ("1",)))):
                         st.add(("pos", d))
+                    # n >= 0, n > -1 (the negative outcomes were dealt with on another branch)
+                    if (a == p and ((op == ">=" and b in ("0",)) or (op == ">" and b in ("-1",)))) or \
+                       (b == p and ((op == "<=" and a in ("0",)) or (op == "<" and a in ("-1",)))):
+                        st.add(("ge0", d))
+                    if op == "!=" and ((a == p and b == "0") or (b == p and a == "0")):
+                        st.add(("ne0", d))
+                elif f[0] in ("ne",) and len(f) > 2 and f[1] == p and str(f[2]) == "0":
+                    st.add(("ne0", d))
+                elif f[0] == "true" and f[1] == p:
+                    st.add(("ne0", d))
+                unsigned_ = fn.vardecls.get(d, {}).get("ts") == 0 and (fn.vardecls.get(d, {}).get("tw") or 0) >= 32
+                if (("ge0", d) in st or unsigned_) and ("ne0", d) in st:
+                    st.add(("pos", d))        # not negative (or of an unsigned type) and not zero
         return frozenset(st)
 
     def visit(state, n, blk):
